@@ -195,6 +195,8 @@ class InterpreterAnalyzer(ASTTemplate):
                     self.scalars[result.name] = copy(result)
         finally:
             vtlengine.Exceptions.dataset_output = None  # type: ignore[attr-defined]
+            # A statement that failed must not shift the names of the next run's intermediates
+            VirtualCounter.reset()
         if invalid_dataset_outputs:
             raise SemanticError("0-1-2-8", names=", ".join(invalid_dataset_outputs))
         if invalid_scalar_outputs:
